@@ -234,7 +234,7 @@ def main(mod_name, argv=None):
         'distinct_nontrivial': len(keys_nontrivial),
         'distinct_cases': len(keys_all),
         'rule': mod.RULE,
-        'samples': samples + [dict(v[1].get('sample', {}), violation=v[1].get('detail'))
+        'samples': (samples or [{'note': 'none of the executed cases carried a sample (short or offset run)'}]) + [dict(v[1].get('sample', {}), violation=v[1].get('detail'))
                               for v in violations[:3]],
         'exhaustive': bool(getattr(mod, 'EXHAUSTIVE', {}).get(args.tier, False)),
         'cases_requested': ncases,
